@@ -1068,7 +1068,10 @@ static void CodeRESTORE(Word Index) {
 
         Old            = FirstSaveState;
         FirstSaveState = Old->Next;
-        if (Old->SavePC != ActPC) {
+        /* the structure 'segment' only exists while a structure definition
+           is open: do not go back into one that has been closed meanwhile */
+
+        if ((Old->SavePC != ActPC) && ((Old->SavePC != StructSeg) || StructStack)) {
             ActPC     = Old->SavePC;
             DontPrint = True;
         }
